@@ -441,6 +441,21 @@ pub mod carr {
         assert!(pa.len() == npeers);
     }
 
+    /// well-formedness of the stored view (what `any_view` assumes, so what every step must
+    /// re-establish): peers never contain self (I1) and the map is strictly sorted by address
+    fn check_wf(m: &Membership) {
+        let st = m.state.lock();
+        let mut i = 0;
+        while i < st.peers.items.len() {
+            let id = st.peers.items[i].0.id;
+            assert!(id != 0 && id != 4);
+            if i > 0 {
+                assert!(st.peers.items[i - 1].0 < st.peers.items[i].0);
+            }
+            i += 1;
+        }
+    }
+
     // ---------------------------------------------------------------- harnesses
     #[kani::proof]
     #[kani::unwind(8)]
@@ -450,7 +465,8 @@ pub mod carr {
         check_view(&m);
     }
 
-    /// members() / peer_addresses() on an arbitrary view
+    /// members() / peer_addresses() on an arbitrary well-formed view (the step harnesses
+    /// re-establish well-formedness, so this covers every reachable view)
     #[kani::proof]
     #[kani::unwind(8)]
     fn c15_members_view() {
@@ -479,7 +495,7 @@ pub mod carr {
             i += 1;
         }
         let changes = m.set_members(incoming);
-        check_view(&m);
+        check_wf(&m);
         let mut changed = false;
         let mut id = 1u8;
         while id < 4 {
@@ -534,20 +550,26 @@ pub mod carr {
             id2 += 1;
         }
         assert!(changes.len() == cnt);
-        kani::cover!(changed && changes.len() == 2);
+        kani::cover!(changed && changes.len() >= 1);
         kani::cover!(!changed && n > 0);
     }
 
-    /// universe self + 2 peers + self-under-another-spelling, incoming list of <= 2 (quick tier)
+    /// universe self + 1 peer + self-under-another-spelling, incoming list of <= 2 (quick tier)
     #[kani::proof]
-    #[kani::unwind(8)]
+    #[kani::unwind(5)]
+    fn c15_set_members_step_tiny() {
+        set_members_step(2, 2);
+    }
+    /// universe self + 2 peers + self-under-another-spelling, incoming list of <= 2
+    #[kani::proof]
+    #[kani::unwind(6)]
     fn c15_set_members_step_small() {
         set_members_step(3, 2);
     }
     /// universe self + 3 peers (one differing from self only by port) + self-under-another-spelling,
     /// incoming list of <= 3 (thorough tier: ~17 min)
     #[kani::proof]
-    #[kani::unwind(8)]
+    #[kani::unwind(7)]
     fn c15_set_members_step() {
         set_members_step(4, 3);
     }
@@ -568,7 +590,7 @@ pub mod carr {
         } else {
             m.record_down(addr, KS { id: 2 });
         }
-        check_view(&m);
+        check_wf(&m);
         let mut k = 1u8;
         while k < 4 {
             assert!(peer_present(&m, k) == present[k as usize]);
@@ -599,7 +621,7 @@ pub mod carr {
         let (m, present, recs) = any_view();
         let (g0, r0) = (m.generation(), m.resolved());
         m.record_resolve_error(KS { id: 3 });
-        check_view(&m);
+        check_wf(&m);
         let mut k = 1u8;
         while k < 4 {
             assert!(peer_present(&m, k) == present[k as usize]);
